@@ -882,19 +882,24 @@ def corrupted_sem_cases(sem_cases):
 
 
 def validate_with_selftest(spec, cfg, sem, scratch, groups, prop):
-    """par_validate of the real cases plus the corrupted copies; returns (verdicts of the real cases, states,
-    transitions, selftest report).  Raises MachineryError if a corrupted observation is accepted or misjudged."""
+    """par_validate of the real cases, then of corrupted copies of observations the oracle ACCEPTED (a second, small TLC
+    run); returns (verdicts of the real cases, states, transitions, selftest report).  Raises MachineryError if a
+    corrupted observation is accepted or answered with another clause than the one it violates."""
     from harness.common import MachineryError
-    bad = corrupted_sem_cases(sem)
-    verdicts, states, trans, _ = exact.par_validate(spec, cfg, sem + [c for _, c, _ in bad], scratch, groups=groups, chunk=400, env=JVM_ENV)
-    real = [v for v in verdicts if v[0] < len(sem)]
-    got = {v[0] - len(sem): v[2] for v in verdicts if v[0] >= len(sem)}
+    verdicts, states, trans, _ = exact.par_validate(spec, cfg, sem, scratch, groups=groups, chunk=400, env=JVM_ENV)
+    rejected = {v[0] for v in verdicts}
+    bad = corrupted_sem_cases([c for i, c in enumerate(sem) if i not in rejected])
     report = {}
-    for i, (name, _c, want) in enumerate(bad):
-        report[name] = got.get(i, 'ACCEPTED')
-        if got.get(i) != want:
-            raise MachineryError('%s oracle self-test: corrupted observation %r was judged %r, expected %r' % (prop, name, got.get(i, 'accepted'), want))
-    return real, states, trans, report
+    if bad:
+        v2, s2, t2, _ = exact.par_validate(spec, cfg, [c for _, c, _ in bad], scratch, groups=1, chunk=400, env=JVM_ENV)
+        states += s2
+        trans += t2
+        got = {v[0]: v[2] for v in v2}
+        for i, (name, _c, want) in enumerate(bad):
+            report[name] = got.get(i, 'ACCEPTED')
+            if got.get(i) != want:
+                raise MachineryError('%s oracle self-test: corrupted observation %r was judged %r, expected %r' % (prop, name, got.get(i, 'accepted'), want))
+    return verdicts, states, trans, report
 
 
 def run_compile_cases(cases, procs=12):
